@@ -151,6 +151,8 @@ def tlc(module, cfg=None, env=None, workers=1, timeout=900, extra=(), metadir=No
 
 def tlc_ok(res, what):
     if res["rc"] != 0:
+        if os.environ.get("VERIF_TLC_FAILLOG"):
+            open(os.environ["VERIF_TLC_FAILLOG"], "w").write(res["out"])
         tail = "\n".join(l for l in res["out"].splitlines() if not l.startswith(("Linting", "Parsing", "Semantic")))[-3000:]
         raise MachineryError("TLC failed on %s (rc=%s):\n%s" % (what, res["rc"], tail))
     return res
